@@ -103,6 +103,10 @@ inductive PyVal
   | seq (k : SeqKind) (items : List Atom)
   /-- a list (or tuple) of tuples, e.g. `[(100, 150), (50, 50)]` -/
   | rows (k : SeqKind) (items : List (List Atom))
+  /-- a list (or tuple) whose elements are lists or tuples, each with its flag "is a list": a list of
+  lists `[[1.0, 2.0], [3.0, 4.5]]`, a tuple of lists, mixed rows `[[1.0], (2.0, 3.0)]` (the harness
+  uses `rows` when every row is a tuple) -/
+  | nest (k : SeqKind) (items : List (Bool × List Atom))
   /-- `FractionValue(number, fraction)`; `frac` is the exact value of the fraction part -/
   | fv (number frac : Rat)
   | qty (q : Qty)
@@ -149,12 +153,18 @@ def atomsEq : List Atom → List Atom → Bool
 inductive Elem
   | atom (a : Atom)
   | row (r : List Atom)
+  /-- a list of plain values (`[1.0, 2.0] != (1.0, 2.0)`) -/
+  | lrow (r : List Atom)
 deriving DecidableEq, Repr
 
-/-- `x == y` between two elements (a tuple never equals a number, a string or `None`) -/
+/-- the element a row of a `nest` is -/
+def rowElem (r : Bool × List Atom) : Elem := if r.1 then .lrow r.2 else .row r.2
+
+/-- `x == y` between two elements (a tuple never equals a number, a string, `None` or a list) -/
 def elemEq : Elem → Elem → Bool
   | .atom a, .atom b => atomEq a b
   | .row r, .row t => atomsEq r t
+  | .lrow r, .lrow t => atomsEq r t
   | _, _ => false
 
 /-- `tuple(xs) == tuple(ys)` -/
@@ -171,6 +181,8 @@ def PyVal.hashable : PyVal → Bool
   | .seq _ _ => false
   | .rows .tuple _ => true
   | .rows _ _ => false
+  | .nest .tuple items => items.all (fun r => !r.1)
+  | .nest _ _ => false
   | .fv _ _ => false
   | .qty _ => true
 
@@ -178,6 +190,7 @@ def PyVal.hashable : PyVal → Bool
 def pyLen : PyVal → Except ErrKind Int
   | .seq _ items => .ok items.length
   | .rows _ items => .ok items.length
+  | .nest _ items => .ok items.length
   | .atom (.str s _) => .ok (Sym.bytes s).length
   | _ => .error .type
 
@@ -196,6 +209,7 @@ def pyFloat : PyVal → Except ErrKind Rat
 def pyTuple : PyVal → Except ErrKind (List Elem)
   | .seq _ items => .ok (items.map Elem.atom)
   | .rows _ items => .ok (items.map Elem.row)
+  | .nest _ items => .ok (items.map rowElem)
   | .atom (.str s _) => .ok ((Sym.bytes s).map (fun b => Elem.atom (Atom.str b Option.none)))
   | _ => .error .type
 
@@ -383,6 +397,8 @@ def obtainQuantityC (db : Db) (unit : PyVal) (category cap : Atom) : Except ErrK
   | .seq .tuple items => .error (obtainSeqErr items)
   | .rows .list rows => obtainRowsC db rows category cap
   | .rows .tuple rows => obtainRowsC db rows category cap
+  | .nest .list rows => obtainRowsC db (rows.map (·.2)) category cap     -- indexing a list row is indexing a tuple row
+  | .nest .tuple rows => obtainRowsC db (rows.map (·.2)) category cap
   | .atom a => obtainAtomC db a category cap
   | v => if !v.hashable then .error .type       -- the cache key
          else obtainNonStrC db category cap
@@ -658,6 +674,7 @@ def PyVal.isValueFor (cls : Cls) : PyVal → Bool
   | .qty _ => false
   | .seq .tuple _ => cls != .scalar
   | .rows .tuple _ => cls != .scalar
+  | .nest .tuple _ => cls != .scalar
   | _ => true
 
 /-- "Support for creating a scalar as Scalar(10, 'm') / Scalar(10, 'm', 'length')": the arguments
@@ -730,6 +747,8 @@ def scalarInit (db : Db) (category value : PyVal) (unit : Atom) : Except ErrKind
   match category with
   | .seq .tuple items => scalarTupleForm db (items.map PyVal.atom) value unit
   | .rows .tuple rows => scalarTupleForm db (rows.map (PyVal.seq .tuple)) value unit
+  | .nest .tuple rows =>
+    scalarTupleForm db (rows.map (fun r => PyVal.seq (if r.1 then .list else .tuple) r.2)) value unit
   | c => abstractInit db .scalar c value unit
 
 /-- `Cls(a1, a2, a3)` (positional or by keyword: the parameters are the same) -/
@@ -919,6 +938,77 @@ def runCall (db : Db) (f : Call) : Option (Except ErrKind Obj) :=
         | .qty q => some (createWithQuantityBoth f.cls q a2 f.a3 f.dimKw)
         | _ => Option.none
 
+/-! ### what a caller does with the container an object handed out -/
+
+/-- an in-place operation on the container `GetValues()` / `.values` returned (it IS the stored
+container: the caller owns it as much as the object does) -/
+inductive Mut
+  /-- `values.append(x)` -/
+  | append (x : Atom)
+  /-- `values.extend(xs)` / `values += xs` -/
+  | extend (xs : List Atom)
+  /-- `values[i] = x` (0 ≤ i) -/
+  | setItem (i : Nat) (x : Atom)
+  /-- `values *= k` on an ndarray, `k` a power of two (exact in doubles) -/
+  | scale (k : Rat)
+deriving DecidableEq, Repr
+
+def scaleAtom (k : Rat) : Atom → Atom
+  | .num q _ => .num (q * k) false
+  | a => a
+
+/-- the container after the operation (`none`: a combination the histories do not contain); a tuple
+has no `append`/`extend` (`AttributeError`) and no item assignment (`TypeError`), neither has an
+ndarray `append`/`extend` -/
+def applyMut (v : PyVal) : Mut → Option (Except ErrKind PyVal)
+  | .append x =>
+    match v with
+    | .seq .list items => some (.ok (.seq .list (items ++ [x])))
+    | .seq _ _ => some (.error .other)
+    | _ => Option.none
+  | .extend xs =>
+    match v with
+    | .seq .list items => some (.ok (.seq .list (items ++ xs)))
+    | .seq .tuple _ => some (.error .other)
+    | _ => Option.none
+  | .setItem i x =>
+    match v with
+    | .seq .list items => some (if i < items.length then .ok (.seq .list (items.set i x)) else .error .index)
+    | .seq .tuple _ => some (.error .type)
+    | .seq .nda items =>
+      match x with
+      | .num q _ => some (if i < items.length then .ok (.seq .nda (items.set i (.num q false))) else .error .index)
+      | _ => Option.none
+    | _ => Option.none
+  | .scale k =>
+    match v with
+    | .seq .nda items => some (.ok (.seq .nda (items.map (scaleAtom k))))
+    | _ => Option.none
+
+/-- the object after the operation on the container it handed out: only that object's values change
+(an appended FixedArray keeps its dimension attribute) -/
+def Obj.mutate (o : Obj) (m : Mut) : Option (Except ErrKind Obj) :=
+  match o.val with
+  | .arr v =>
+    match applyMut v m with
+    | some (.ok v') => some (.ok ⟨o.q, .arr v'⟩)
+    | some (.error e) => some (.error e)
+    | Option.none => Option.none
+  | .fixed v d =>
+    match applyMut v m with
+    | some (.ok v') => some (.ok ⟨o.q, .fixed v' d⟩)
+    | some (.error e) => some (.error e)
+    | Option.none => Option.none
+  | _ => Option.none
+
+/-- the operations one after the other; the first that raises ends the sequence -/
+def mutAll (o : Obj) : List Mut → Option (Except ErrKind Obj)
+  | [] => some (.ok o)
+  | m :: ms =>
+    match o.mutate m with
+    | some (.ok o') => mutAll o' ms
+    | other => other
+
 /-- the database a registry is: the rows in the iteration order of `quantity_types`, the categories
 in registration order (the flat view the translator reads off a real database) -/
 def dbOf (lg : List (Sym × Sym)) (r : Reg.Registry) : Db := ⟨r.allRows, r.cats, lg⟩
@@ -929,23 +1019,34 @@ inductive HOp
   | reg (op : Reg.RegOp)
   | defcat (u : Sym)
   | calls (cs : List Call)
+  /-- build an object, then operate in place on the container it hands out -/
+  | mut (c : Call) (ms : List Mut)
 deriving DecidableEq, Repr
 
 inductive HOut
   | reg (o : Except ErrKind Reg.Out)
   | defcat (r : Except ErrKind (Option Sym))
   | calls (rs : List (Option (Except ErrKind Obj)))
+  /-- the object as built, and as it is after the operations -/
+  | mut (built after : Option (Except ErrKind Obj))
 deriving DecidableEq, Repr
 
 def HOp.isQuery : HOp → Bool
   | .reg _ => false
   | _ => true
 
-/-- questions and construction calls read the registry as it is and leave it alone -/
+/-- questions and construction calls read the registry as it is and leave it alone; so does whatever
+a caller does to the containers of the objects it built: the only state a construction reads is the
+registry (no default container is shared between objects) -/
 def hstep (lg : List (Sym × Sym)) (r : Reg.Registry) : HOp → Reg.Registry × HOut
   | .reg op => ((Reg.step lg r op).1, .reg (Reg.step lg r op).2)
   | .defcat u => (r, .defcat (getDefaultCategory (dbOf lg r) u))
   | .calls cs => (r, .calls (cs.map (runCall (dbOf lg r))))
+  | .mut c ms =>
+    (r, .mut (runCall (dbOf lg r) c)
+      (match runCall (dbOf lg r) c with
+       | some (.ok o) => mutAll o ms
+       | _ => Option.none))
 
 def hrun (lg : List (Sym × Sym)) (r : Reg.Registry) : List HOp → Reg.Registry
   | [] => r
